@@ -258,7 +258,9 @@ impl EventGen for GroupElement {
             events.push(OutputEvent::Start(new_el));
 
             if let Some(inner_events) = self.0.inner_events(context) {
-                let (ev_list, bb) = process_events(inner_events, context)?;
+                let (ev_list, bb) = process_events(inner_events, context).inspect_err(|_| {
+                    context.pop_element();
+                })?;
                 content_bb = bb;
                 events.extend(&ev_list);
             }
